@@ -146,6 +146,11 @@ def run(P, R):
         R.check(r2, tgt in dn, '%s.next() propagates that decision' % fsm.instances[st].name,
                 'consistence-next|%s' % fsm.instances[st].name, P.resolved(fsm.instances[st], 'next').loc(),
                 '%s.next() never returns %s' % (fsm.instances[st].name, tgt))
+    for st in WORKING:
+        R.check(r2, 'ELECTION' in fsm.transitions[st], 'the way back to ELECTION is open from %s' % st,
+                'election-refused|%s' % fsm.instances[st].name, fsm.cls.mod.relpath + ':%d' % fsm.trans_node.lineno,
+                '%s decides ELECTION when the Master is missing or not unique but _Transitions[%s] refuses it: the '
+                'instances stay in %s without any Master for ever' % (fsm.instances[st].name, st, st))
     ms = P.unit('_MasterSlaveState.next')
     fm = factmap(ms)
     for c in own_nodes(ms.node):
